@@ -1,0 +1,21 @@
+// SPDX-FileCopyrightText: 2020-present Open Networking Foundation <info@opennetworking.org>
+//
+// SPDX-License-Identifier: Apache-2.0
+
+//go:build verif
+
+package gnmi
+
+import (
+	topoapi "github.com/onosproject/onos-api/go/onos/topo"
+	gclient "github.com/openconfig/gnmi/client/gnmi"
+)
+
+// NewConnForVerif wraps an established gNMI client in the production client/conn types under a chosen connection ID
+func NewConnForVerif(id ConnID, targetID topoapi.ID, c *gclient.Client) Conn {
+	return &conn{
+		client:   &client{client: c},
+		id:       id,
+		targetID: targetID,
+	}
+}
